@@ -19,8 +19,11 @@ WORLD_CFGS = {
     "json": [0, 3],
     "tagged": [0, 1, 12, 8],
     "wrapped": [0, 9, 10, 11],
+    "kinds": [0],
+    "absent": [0, 6],
+    "eq": [0],
 }
-DEPTH = {"scalars": 2, "containers": 2, "records": 3, "json": 3, "tagged": 3, "wrapped": 3}
+DEPTH = {"kinds": 2, "absent": 3, "eq": 1, "scalars": 2, "containers": 2, "records": 3, "json": 3, "tagged": 3, "wrapped": 3}
 
 
 def build_world(name, data, tier, rnd):
